@@ -1,8 +1,8 @@
 (* C10 - the property theorems, nothing else.  Each is closed by [exact] of a
-   lemma from Lemmas.v and followed by Print Assumptions.  The model is that
-   of the code with the repair C10-fix-1 applied; the superseded guard and
-   get_filenames are refuted in Refuted.v. *)
-From CfdmV Require Import Common.Base C10.Model C10.Spec C10.Lemmas.
+   lemma and followed by Print Assumptions.  The model is that of the code
+   with the repairs C10-fix-1 and C10-fix2-1..3 applied; superseded code is
+   refuted in Refuted.v. *)
+From CfdmV Require Import Common.Base C10.Model C10.Spec C10.Lemmas C10.Fs C10.FsLemmas C10.Ident.
 Open Scope Z_scope.
 
 (* get_filenames() of a field or domain construct is exactly the set of files
@@ -15,70 +15,102 @@ Proof. exact files_complete. Qed.
 Print Assumptions C10_files_complete.
 
 (* The guard is sound whatever produced the constructs (hence over every
-   derivation history): a regular file from which any construct being written
-   still has unread data is left exactly as it was by every mode-w write -
-   overwrite on or off, whether the write succeeds, is refused or fails
-   part-way, the target being named directly or through a symbolic link - and
-   keeps its existing content under append. *)
+   derivation history), for every file system in which files and links are
+   leaves - symbolic links may sit at ANY component of any name: to the file,
+   to a parent directory, to the scratch directory - and for every spelling of
+   the target and of the external file.  The regular file (identified by its
+   canonical path, i.e. what os.path.realpath compares) from which a written
+   construct still has unread data is left exactly as it was by every mode-w
+   call - main file AND external file, overwrite on or off, whether the call
+   succeeds, is refused or fails part-way - and keeps its content under append. *)
 Theorem C10_guard_sound :
-  forall fs fields x o stamp fs' r f n,
-  wf_fs fs -> In f fields -> needs f n ->
-  write_model guard fs fields x o stamp = (fs', r) ->
+  forall fs q o stamp fs' r f n,
+  tree_wf (nodes fs) -> In f (q_fields q) -> needs f n ->
+  is_regular (nodes fs) (real fs n) = true ->
+  write_model guard fs q o stamp = (fs', r) ->
   match w_mode o with
-  | MA => option_map fst (content fs' (real fs n)) = option_map fst (content fs (real fs n))
+  | MA => stamp_of (content fs' (real fs n)) = stamp_of (content fs (real fs n))
   | _ => content fs' (real fs n) = content fs (real fs n)
   end.
 Proof. exact guard_sound. Qed.
 Print Assumptions C10_guard_sound.
 
-(* Non-vacuity: lazy bounds and a lazy count variable under in-memory data;
-   refused for the file and for a link to it, accepted elsewhere; the guard as
-   it was would have let the transplanted data through. *)
+(* Non-vacuity: lazy bounds + lazy count variable under in-memory data; refused
+   by name, through a link to the parent directory, through a link to the file
+   and through a linked scratch directory; accepted elsewhere; the external
+   file refused when a construct itself needs it; an existing external file
+   kept when overwrite is disabled. *)
 Theorem C10_guard_sound_example :
-  wf_fs ex_fs /\ needs ex_field 7 /\
-  write_model guard ex_fs [ex_field] 7 (mkW MW true FNone) 101 = (ex_fs, Some ValueErr) /\
-  write_model guard ex_fs [ex_field] 8 (mkW MW true FNone) 101 = (ex_fs, Some ValueErr) /\
-  snd (write_model guard ex_fs [ex_field] 9 (mkW MW true FNone) 101) = None /\
-  guard_old ex_fs (mkF [] (f_data ex_field) []) 7 = false.
+  tree_wf (nodes ex_fs) /\ needs (ex_field_n 10) 10 /\ is_regular (nodes ex_fs) (real ex_fs 10) = true /\
+  Forall (fun x => write_model guard ex_fs (ex_q x) (mkW MW true FNone) 1000 = (ex_fs, Some ValueErr))
+         [10; 11; 12; 13] /\
+  same_file (nodes ex_fs) (path_of ex_fs 13) (path_of ex_fs 10) /\
+  snd (write_model guard ex_fs (ex_q 14) (mkW MW true FNone) 1000) = None /\
+  (let '(fs', r) := write_model guard ex_fs (mkQ [ex_g] [ex_ef] (tg ex_fs 14) (Some (tg ex_fs 11)))
+                                (mkW MW true FNone) 1000 in
+   r = Some ValueErr /\ content fs' [1; 2; 4] = content ex_fs [1; 2; 4]) /\
+  (let '(fs', r) := write_model guard ex_fs (mkQ [ex_h] [ex_ef] (tg ex_fs 14) (Some (tg ex_fs 15)))
+                                (mkW MW false FNone) 1000 in
+   r = Some OtherErr /\ content fs' [1; 2; 8] = content ex_fs [1; 2; 8]).
 Proof. exact guard_sound_example. Qed.
 Print Assumptions C10_guard_sound_example.
 
-(* A request that the guard rejects is refused before the file is touched:
-   the file system is returned as it was, with a ValueError. *)
+(* A request that the guard rejects is refused before any file is touched. *)
 Theorem C10_refused_before_touch :
-  forall G fs fields x o stamp,
+  forall C FW G fs q o stamp,
   w_mode o = MW -> (forall e, w_fault o <> FEarly1 e) -> (forall e, w_fault o <> FEarly2 e) ->
-  isfile fs x && negb (w_overwrite o) = false ->
-  existsb (fun f => G fs f x) fields = true ->
-  write_model G fs fields x o stamp = (fs, Some ValueErr).
+  isfile_p (nodes fs) (t_path (q_x q)) && negb (w_overwrite o) = false ->
+  existsb (fun f => G fs f (q_x q)) (q_fields q) = true ->
+  write_gen C FW G fs q o stamp = (fs, Some ValueErr).
 Proof. exact refused_untouched. Qed.
 Print Assumptions C10_refused_before_touch.
 
-(* Every error other than one raised while variables are being written (bad
-   mode, bad option value, unknown format, overwrite disabled, guard) leaves
-   the whole file system as it was. *)
-Theorem C10_error_untouched :
-  forall G fs fields x o stamp fs' e,
-  w_fault o <> FLate -> w_mode o <> MA ->
-  write_model G fs fields x o stamp = (fs', Some e) -> fs' = fs.
-Proof. exact error_untouched. Qed.
-Print Assumptions C10_error_untouched.
+(* The external file is refused, before it is touched, when one of the
+   constructs being written itself still needs it (repair fix2-2). *)
+Theorem C10_external_refused_before_touch :
+  forall G fs q o stamp fs1 e ef efs,
+  write_one G fs (q_fields q) (q_x q) o (ext_same (nodes fs) (q_x q) (q_ext q)) stamp = (fs1, None) ->
+  q_ext q = Some e -> q_efields q = ef :: efs ->
+  existsb (fun f => G fs1 f e) (q_fields q) = true ->
+  write_model G fs q o stamp = (fs1, Some ValueErr).
+Proof. exact external_refused. Qed.
+Print Assumptions C10_external_refused_before_touch.
 
-(* With overwrite disabled an existing file is left intact, whatever is
-   written and with whatever other options: the call raises. *)
+(* Errors raised by the option checks (bad mode, bad option value, unknown
+   format) leave the whole file system as it was. *)
+Theorem C10_option_error_untouched :
+  forall C FW G fs q o stamp,
+  w_mode o = MBad \/ (exists e, w_fault o = FEarly1 e) \/ (w_mode o = MW /\ exists e, w_fault o = FEarly2 e) ->
+  exists e, write_gen C FW G fs q o stamp = (fs, Some e).
+Proof. exact option_error_untouched. Qed.
+Print Assumptions C10_option_error_untouched.
+
+(* With overwrite disabled an existing target makes the call raise with the
+   file system unchanged ... *)
 Theorem C10_no_overwrite :
-  forall G fs fields x o stamp,
-  w_mode o = MW -> w_overwrite o = false -> isfile fs x = true ->
-  exists e, write_model G fs fields x o stamp = (fs, Some e).
+  forall C FW G fs q o stamp,
+  w_mode o = MW -> w_overwrite o = false -> isfile_p (nodes fs) (t_path (q_x q)) = true ->
+  exists e, write_gen C FW G fs q o stamp = (fs, Some e).
 Proof. exact no_overwrite. Qed.
 Print Assumptions C10_no_overwrite.
 
-(* The recorded original file names (what the guard consulted alone before the
-   repair, and still consults) keep covering the files a construct's data need
-   over every history - of any length, with any arrays brought into memory on
-   the way - of copies, subspaces, squeezes, transposes, conversions, domain
-   extraction, Field(source=), deletion and insertion of constructs and of
-   bounds, as long as no data object is transplanted. *)
+(* ... and EVERY regular file that exists before the call is identical
+   afterwards, whatever role it plays (target, external file, bystander),
+   whatever is written, whatever guard, however the names are spelt. *)
+Theorem C10_no_overwrite_all :
+  forall G fs q o stamp fs' r K,
+  tree_wf (nodes fs) -> w_mode o = MW -> w_overwrite o = false -> is_regular (nodes fs) K = true ->
+  write_model G fs q o stamp = (fs', r) ->
+  content fs' K = content fs K.
+Proof. exact no_overwrite_all. Qed.
+Print Assumptions C10_no_overwrite_all.
+
+(* The recorded original file names keep covering the files a construct's
+   data need over every history - of any length, with any arrays brought into
+   memory on the way - of copies, subspaces, squeezes, transposes,
+   conversions, domain extraction, Field(source=), deletion and insertion of
+   constructs (also constructs made in memory) and of bounds, as long as no
+   data object is transplanted. *)
 Theorem C10_orig_covers_needs :
   forall e0 e f x,
   Forall field_inv e0 -> reach no_transplant e0 e -> In f e -> needs f x ->
@@ -87,19 +119,46 @@ Proof. exact orig_covers_needs. Qed.
 Print Assumptions C10_orig_covers_needs.
 
 (* Without the restriction the statement is false: set_data with another
-   construct's lazy data (F10a) - which is why the repaired guard also
-   consults get_filenames(). *)
+   construct's lazy data (F10a) - which is why the guard also consults
+   get_filenames(). *)
 Theorem C10_orig_covers_needs_transplant_refuted :
   exists e0 e f x, Forall field_inv e0 /\ reach any_op e0 e /\ In f e /\ needs f x /\
                    ~ In x (field_orig f).
 Proof. exact orig_covers_needs_transplant_refuted. Qed.
 Print Assumptions C10_orig_covers_needs_transplant_refuted.
 
-(* Derivations never invent a dependency: whatever file a construct of any
-   history (transplants included) needs, one of the constructs the history
-   started from needed. *)
+(* Derivations never invent a dependency. *)
 Theorem C10_needs_bounded :
   forall e0 e f x,
   reach any_op e0 e -> In f e -> needs f x -> exists f0, In f0 e0 /\ needs f0 x.
 Proof. exact needs_bounded. Qed.
 Print Assumptions C10_needs_bounded.
+
+(* A write leaves the constructs passed to it exactly as they were: every
+   mutable component the caller holds (any address below [n]) reads the same
+   after the writer has processed any number of constructs, whether or not one
+   of them raised - because the writer, as transcribed (checks, copy, then
+   conform_geometry_variables and every later in-place change), mutates only
+   objects created by its own copy. *)
+Theorem C10_inputs_unchanged :
+  forall cf18 later fields h n h' n' err,
+  write_all (writer_prog cf18 later) h n fields = (h', n', err) ->
+  forall a, (a < n)%nat -> hget h' a = hget h a.
+Proof. exact writer_keeps_inputs. Qed.
+Print Assumptions C10_inputs_unchanged.
+
+(* the same for every program that copies before it changes anything *)
+Theorem C10_inputs_unchanged_copy_first :
+  forall prog fields h n h' n' err,
+  copy_first prog = true -> write_all prog h n fields = (h', n', err) ->
+  agree n h h' /\ (n <= n')%nat.
+Proof. exact inputs_unchanged. Qed.
+Print Assumptions C10_inputs_unchanged_copy_first.
+
+(* Non-vacuity: interior ring variables with different property sets; the
+   copies are harmonised, the caller's are not. *)
+Theorem C10_inputs_unchanged_example :
+  exists h', write_all (writer_prog true []) ex_heap 2%nat [ex_obj] = (h', 4%nat, false)
+             /\ hget h' 0%nat = [(1, 7)] /\ hget h' 1%nat = [] /\ hget h' 3%nat = [(1, 7)].
+Proof. exact writer_keeps_inputs_example. Qed.
+Print Assumptions C10_inputs_unchanged_example.
